@@ -342,6 +342,7 @@ def rf134(run):
     bound = dict(codes)['MIR_INSN_BOUND']
     modes = dict(tu.enum('MIR_op_mode_t'))
     calls = {'MIR_CALL', 'MIR_INLINE', 'MIR_JCALL'}
+    kinds_ = dict(tu.enum_by_member('MIR_func_item')[1])
     n = 0
     first = None
     for nm, v in codes:
@@ -349,7 +350,8 @@ def rf134(run):
             continue
         for i in range(5):
             ex = PE.PrintExec(tu, {}, {}, {})
-            env = {'code': v, 'i': i, 'insn->code': v, 'insn->ops[%d].mode' % i: modes['MIR_OP_REF'], 'insn->ops[i].mode': modes['MIR_OP_REF']}
+            env = {'code': v, 'i': i, 'insn->code': v, 'insn->ops[%d].mode' % i: modes['MIR_OP_REF'], 'insn->ops[i].mode': modes['MIR_OP_REF'],
+                   'insn->ops[i].u.ref->item_type': kinds_['MIR_func_item']}
             skipped = False
             try:
                 for s_ in head:
@@ -370,6 +372,28 @@ def rf134(run):
                 run.ob(rule, (nm, i), ok)
             if not ok and first is None:
                 first = (nm, i, skipped)
+    # the reference callee is exempt from the mode check only: its item kind is validated right there (nothing else looks at it)
+    allowed = {'MIR_import_item', 'MIR_export_item', 'MIR_forward_item', 'MIR_func_item'}
+    for kn, kv in sorted(kinds_.items(), key=lambda t: t[1]):
+        ex = PE.PrintExec(tu, {}, {}, {})
+        env = {'code': dict(codes)['MIR_CALL'], 'i': 1, 'insn->code': dict(codes)['MIR_CALL'], 'insn->ops[1].mode': modes['MIR_OP_REF'],
+               'insn->ops[i].mode': modes['MIR_OP_REF'], 'insn->ops[i].u.ref->item_type': kv}
+        try:
+            for s_ in head:
+                r = ex.run(s_, env)
+                if r in ('continue', 'break', 'return'):
+                    break
+        except F.AnalysisBroken as e_:
+            raise F.AnalysisBroken('MIR_finish_func: callee check not evaluable for %s: %s' % (kn, e_))
+        rejected = bool(ex.errors)
+        ok = rejected == (kn not in allowed)
+        n += 1
+        run.ob(rule, ('callee', kn), ok, {'callee item kind': kn, 'rejected': rejected})
+        if not ok:
+            run.violation(rule, f, 'callee of kind %s' % kn, 'a call whose second operand refers to a %s item is %s by MIR_finish_func: %s' %
+                          (kn[4:-5], 'rejected' if rejected else 'accepted',
+                           'only the assertion (compiled out) looked at the kind of the callee; the generator emits a call to the address of a '
+                           'prototype or data item' if not rejected else 'a legal callee kind is refused'), line=loops[0]['l'])
     if first:
         nm, i, skipped = first
         run.violation(rule, f, 'operand %d of %s' % (i, nm), 'MIR_finish_func %s operand %d of %s: %s' %
